@@ -166,7 +166,7 @@ class Tables:
                     names = []
                     for p in _split_top(rest[1:e]):
                         p = _strip_attrs(p)
-                        fm = re.match(r'(?:pub(?:\([^)]*\))?\s+)?([A-Za-z_]\w*)\s*:', p)
+                        fm = re.match(r'(?:pub(?:\([^)]*\))?\s+)?(?:r#)?([A-Za-z_]\w*)\s*:', p)
                         if fm:
                             names.append(fm.group(1))
                     variants.append((name, len(names), names))
@@ -192,7 +192,7 @@ class Tables:
             names = []
             for p in _split_top(src[k + 1:e]):
                 p = _strip_attrs(p)
-                fm = re.match(r'(?:pub(?:\([^)]*\))?\s+)?([A-Za-z_]\w*)\s*:', p)
+                fm = re.match(r'(?:pub(?:\([^)]*\))?\s+)?(?:r#)?([A-Za-z_]\w*)\s*:', p)
                 if fm:
                     names.append(fm.group(1))
             self.struct_decls.setdefault(m.group(1), []).append((rel, names))
